@@ -20,11 +20,12 @@ import (
 	"verif/harness/internal/hctx"
 	"verif/harness/props/c15"
 	"verif/harness/props/c16"
+	"verif/harness/props/c19"
 )
 
 type Ctx = hctx.Ctx
 
-var props = map[string]func(*Ctx){"C15": c15.Run, "C16": c16.Run}
+var props = map[string]func(*Ctx){"C15": c15.Run, "C16": c16.Run, "C19": c19.Run}
 
 func main() {
 	prop := flag.String("prop", "", "property id")
